@@ -10,6 +10,7 @@ import (
 
 	"verif/harness/hv"
 
+	"github.com/bfenetworks/bfe/bfe_util/byte_pool"
 	"github.com/bfenetworks/bfe/bfe_util/hash_set"
 	"github.com/spaolacci/murmur3"
 )
@@ -64,6 +65,9 @@ func impl(in hv.Val) hv.Val {
 		return hv.Err(0)
 	}
 	capN, ksz, fixed, kind := int(hv.AsInt(p[0])), int(hv.AsInt(p[1])), hv.AsBool(p[2]), int(hv.AsInt(p[3]))
+	if kind == -1 {
+		return implPool(capN, ksz, fixed, hv.AsList(p[4]))
+	}
 	set, err := hash_set.NewHashSet(capN, ksz, fixed, hashOf(kind))
 	if err != nil {
 		return hv.Err(1)
@@ -96,7 +100,96 @@ func impl(in hv.Val) hv.Val {
 	return hv.L{obs, hv.L{vha, vnext, hv.I(int(free)), hv.I(length), vslots}}
 }
 
+// pool mode: byte_pool.NewBytePool / NewFixedBytePool used directly
+func implPool(n, size int, fixed bool, ops hv.L) hv.Val {
+	if n <= 0 || size <= 0 {
+		return hv.Err(1)
+	}
+	var pool byte_pool.IBytePool
+	if fixed {
+		pool = byte_pool.NewFixedBytePool(n, size)
+	} else {
+		pool = byte_pool.NewBytePool(n, size)
+	}
+	obs := hv.L{}
+	for _, o := range ops {
+		f := hv.AsList(o)
+		obs = append(obs, func() (out hv.Val) {
+			defer func() {
+				if e := recover(); e != nil {
+					out = hv.Panic()
+				}
+			}()
+			switch hv.AsInt(f[0]) {
+			case 1:
+				e := pool.Set(int32(hv.AsInt(f[1])), hv.AsBytes(f[2]))
+				switch {
+				case e == nil:
+					return hv.I(0)
+				case strings.HasPrefix(e.Error(), "index out of range"):
+					return hv.I(1)
+				default:
+					return hv.I(2)
+				}
+			case 2:
+				return hv.B(append([]byte(nil), pool.Get(int32(hv.AsInt(f[1])))...))
+			default:
+				return hv.I(pool.MaxElemSize())
+			}
+		}())
+	}
+	return obs
+}
+
+func genPool(r *hv.Rng) (string, hv.Val) {
+	n, size, fixed := r.Range(1, 6), r.Range(1, 4), r.Bool()
+	ops := hv.L{}
+	for j := r.Range(1, 40); j > 0; j-- {
+		idx := r.Intn(n)
+		switch r.Intn(12) {
+		case 0:
+			idx = n // first index out of range: Set must refuse, Get panics
+		case 1:
+			idx = n - 1
+		case 2:
+			idx = 0
+		}
+		switch x := r.Intn(10); {
+		case x < 5:
+			ln := size
+			switch r.Intn(5) {
+			case 0:
+				ln = size + 1
+			case 1:
+				ln = r.Range(0, size)
+			case 2:
+				ln = size - 1
+			}
+			k := make([]byte, ln)
+			for y := range k {
+				k[y] = byte(1 + r.Intn(3))
+			}
+			ops = append(ops, hv.L{hv.I(1), hv.I(idx), hv.B(k)})
+		case x < 9:
+			if idx == n && r.Chance(2, 3) {
+				idx = n - 1
+			}
+			ops = append(ops, hv.L{hv.I(2), hv.I(idx)})
+		default:
+			ops = append(ops, hv.L{hv.I(3)})
+		}
+	}
+	class := "pool-var"
+	if fixed {
+		class = "pool-fixed"
+	}
+	return class, hv.L{hv.I(n), hv.I(size), hv.Bool(fixed), hv.I(-1), ops}
+}
+
 func gen(r *hv.Rng, i int, tier string) (string, hv.Val) {
+	if i%6 == 5 {
+		return genPool(r)
+	}
 	capN := r.Range(1, 8)
 	ksz := r.Range(1, 4)
 	fixed := r.Chance(1, 3)
